@@ -155,6 +155,13 @@ PRINT_FILTERS = [
     ('FROM "trip" IN tags', lambda e: type(e).__name__ == 'Transaction' and 'trip' in (e.tags or ())),
     ('FROM year = 2019 AND month > 6', lambda e: e.date.year == 2019 and e.date.month > 6),
     ('FROM narration ~ "rent"', lambda e: type(e).__name__ == 'Transaction' and re.search('rent', e.narration or '', re.I) is not None),
+    # conditions that are not boolean-typed: a directive satisfies them when the value is neither NULL nor empty / zero (as a
+    # row does a WHERE condition)
+    ('FROM payee', lambda e: type(e).__name__ == 'Transaction' and bool(e.payee)),
+    ('FROM tags', lambda e: type(e).__name__ == 'Transaction' and bool(e.tags)),
+    ('FROM length(narration)', lambda e: type(e).__name__ == 'Transaction' and len(e.narration or '') > 0),
+    ('FROM meta("when")', lambda e: bool((e.meta or {}).get('when'))),
+    ('FROM year - 2020', lambda e: e.date.year != 2020),
     ('FROM has_account("Opening")', lambda e: any(re.search('Opening', a, re.I) for a in _accounts_of(e))),
     ('FROM has_account("Cash") AND type != "transaction"', lambda e: type(e).__name__ != 'Transaction' and any(re.search('Cash', a, re.I) for a in _accounts_of(e))),
     ('FROM NOT has_account("Assets")', lambda e: not any(re.search('Assets|Actifs', a, re.I) for a in _accounts_of(e)) if False else not any(re.search('Assets', a, re.I) for a in _accounts_of(e))),
